@@ -231,6 +231,21 @@ func NewWorld(cfg WorldConfig) (*World, error) {
 	}
 	w.started = true
 	w.stopCh = svc.StopChannel()
+	if cfg.Listen {
+		// the listeners are bound on goroutines; a port that was handed to another
+		// process since it was picked makes the case void
+		up := false
+		for i := 0; i < 200 && !up; i++ {
+			up = OwnListener(w.Port) && (w.MetricsPort == 0 || OwnListener(w.MetricsPort))
+			if !up {
+				time.Sleep(5 * time.Millisecond)
+			}
+		}
+		if !up {
+			go svc.Stop(nil)
+			return nil, fmt.Errorf("the gateway did not come to listen on port %d / %d (taken by another process?)", w.Port, w.MetricsPort)
+		}
+	}
 	return w, nil
 }
 
@@ -629,6 +644,11 @@ func (w *World) execOne(op Op) {
 	case "lose":
 		w.doLose()
 	case "start":
+		w.doStart()
+	case "restart":
+		// Stop and Start back to back: whatever the stopped run still has to finish
+		// finishes while the new run is up
+		w.doStop()
 		w.doStart()
 	}
 }
@@ -1094,6 +1114,43 @@ func freePort() int {
 	}
 	defer ln.Close()
 	return ln.Addr().(*net.TCPAddr).Port
+}
+
+// OwnListener reports whether this process holds a listening TCP socket on
+// the loopback port (another process that was handed the same port number in
+// the meantime does not count). Without /proc it falls back to PortOpen.
+func OwnListener(port int) bool {
+	b, err := os.ReadFile("/proc/net/tcp")
+	if err != nil {
+		return PortOpen(port)
+	}
+	inodes := map[string]bool{}
+	for _, ln := range strings.Split(string(b), "\n")[1:] {
+		f := strings.Fields(ln)
+		if len(f) < 10 || f[3] != "0A" {
+			continue
+		}
+		i := strings.LastIndexByte(f[1], ':')
+		if i < 0 {
+			continue
+		}
+		if p, err := strconv.ParseInt(f[1][i+1:], 16, 32); err == nil && int(p) == port {
+			inodes[f[9]] = true
+		}
+	}
+	if len(inodes) == 0 {
+		return false
+	}
+	fds, err := os.ReadDir("/proc/self/fd")
+	if err != nil {
+		return PortOpen(port)
+	}
+	for _, fd := range fds {
+		if l, err := os.Readlink("/proc/self/fd/" + fd.Name()); err == nil && strings.HasPrefix(l, "socket:[") && inodes[l[8:len(l)-1]] {
+			return true
+		}
+	}
+	return false
 }
 
 // PortOpen reports whether something accepts TCP connections on the loopback port.
